@@ -273,6 +273,8 @@ class Evaluator:
             return v.term
         if isinstance(v, Arr) and v.is_whole():
             return st.heap[v.obj.id]
+        if isinstance(v, AExpr) and v.term is not None:
+            return v.term
         ae = self.to_aexpr(st, v)
         ks = [z3.Int(fresh_name("u")) for _ in range(ae.ndim)]
         body = ae.fn(ks)
